@@ -21,7 +21,7 @@
 //                          body_inertia, xipos, ximat, qfrc_bias, rne0 (mj_rne flg_acc=0), tbias (mj_tendonBias on
 //                          zeros), cinert
 //   integ dt v..           mj_integratePos(m, d->qpos, v, dt) in place                  -> ok
-//   mq                     -> fullM nv*nv .. xipos 3nb .. qfrc_bias nv ..   (light dump for the Lagrangian check)
+//   mq                     -> fullM nv*nv .. xipos 3nb .. qfrc_bias nv .. tenJ nt*nv ..   (light dump for the Lagrangian check)
 //   jac b                  mj_jacBodyCom(m, d, jacp, jacr, b)                        -> jacp 3nv .. jacr 3nv ..
 //   round v(nv) y(nv)      Mv = mj_mulM(v); x1 = mj_solveM(Mv); x2 = mj_solveM(y); r2 = mj_mulM(x2)   -> Mv x1 x2 r2
 //   rne flg                mj_rne(m, d, flg, res) with the current d->qacc           -> nv floats
@@ -162,8 +162,10 @@ int main(void) {
       if (!m) printf("error %s\n", err);
       else {
         d = mj_makeData(m);
-        printf("ok nq %d nv %d nbody %d njnt %d nC %d ntendon %d nmocap %d\n", (int)m->nq, (int)m->nv, (int)m->nbody,
+        printf("ok nq %d nv %d nbody %d njnt %d nC %d ntendon %d nmocap %d", (int)m->nq, (int)m->nv, (int)m->nbody,
                (int)m->njnt, (int)m->nC, (int)m->ntendon, (int)m->nmocap);
+        pivec("jnt_type", m->jnt_type, (int)m->njnt);   // lets the generator verify its joint order (bodies are renumbered depth-first)
+        printf("\n");
       }
       jb_armed = 0;
       fflush(stdout);
@@ -271,8 +273,16 @@ int main(void) {
       double* full = (double*)calloc((size_t)nv * nv + 1, sizeof(double));
       mj_fullM(m, d, full);
       printf("mq"); pvec("fullM", full, nv * nv); pvec("xipos", d->xipos, 3 * (int)m->nbody);
-      pvec("qfrc_bias", d->qfrc_bias, nv); printf("\n");
-      free(full);
+      pvec("qfrc_bias", d->qfrc_bias, nv);
+      int nt = (int)m->ntendon;
+      double* tj = (double*)calloc((size_t)nt * nv + 1, sizeof(double));
+      for (int k = 0; k < nt; k++) {
+        int adr = m->ten_J_rowadr[k];
+        for (int j = 0; j < m->ten_J_rownnz[k]; j++) tj[(size_t)k * nv + m->ten_J_colind[adr + j]] = d->ten_J[adr + j];
+      }
+      pvec("tenJ", tj, nt * nv);
+      printf("\n");
+      free(full); free(tj);
     } else if (!strcmp(op, "dump") && n == 1) {
       op_dump();
     } else if (!strcmp(op, "jac") && n == 2) {
